@@ -511,6 +511,8 @@ class NDCubeBase(NDCubeABC, astropy.nddata.NDData, NDCubeSlicingMixin):
             if not wcs:
                 return tuple()
 
+        # The values are in the units of the WCS, as values_to_high_level_objects requires.
+        axes_coords = [coord.value if isinstance(coord, u.Quantity) else coord for coord in axes_coords]
         axes_coords = values_to_high_level_objects(*axes_coords, low_level_wcs=wcs)
 
         if not axes:
